@@ -881,6 +881,7 @@ class Ctx:
         self.fork_timeout_ms = 3000
         self.oracle_mode = False
         self.concrete_env = None
+        self.vacuity_guard = True
         self.reset_path([])
         self.exploring = False
 
@@ -1072,7 +1073,7 @@ def prove(name, goal, assumptions=(), pc=(), timeout_ms=20000) -> Obligation:
     if r.status == 'unsat':
         # vacuity guard: the premises (assumptions + path condition) of a discharged obligation must be satisfiable;
         # checked once per distinct premise set
-        if _VACUITY and not (goal.kind == 'const'):
+        if _VACUITY and CTX.vacuity_guard and not (goal.kind == 'const'):
             prem = cons[:-1]
             key = (tuple(id(b) for b in prem), len(CTX.definitions))
             hit = _VAC_CACHE.get(key)
